@@ -64,7 +64,8 @@ T = {
     change="binding powers are only emitted when a left-recursive rule has an infix branch (src/backend/rust.rs output_left_recursive_rule: requires_bp no longer counts prefix branches)",
     needs="a left-recursive rule with a prefix branch declared before a postfix branch and no infix branch: the prefix operand swallows the postfix operators (`-1!` parses as -(1!))",
     caught="x14_prefix_postfix, rule_e::rec: the [C07] obligation `the grammar text has a prefix operator declared before a postfix operator: that needs a minimum binding power, none is emitted` (whether binding powers are needed is decided from the grammar text, not from the emitted code)",
-    extra={"needed_strengthening": "before this seed a rule without emitted binding powers was reported as `not covered` - the change would have been MISSED; the missing-binding-power obligation and the grammar x14_prefix_postfix were added after reading the agent's report"}),
+    extra={"needed_strengthening": "before this seed a rule without emitted binding powers was reported as `not covered` - the change would have been MISSED; the missing-binding-power obligation and the grammar x14_prefix_postfix were added after reading the agent's report",
+           "patch_note": "patch.diff was rebased by hand onto /repo 9f9c9ce (the F16 fix rewrote the same expression: `requires_bp` is now `any LeftRight || (len > 1 && any Right)`, the seed drops the second disjunct); patch.orig.diff is the sub-agent's diff against d9f18e0"}),
  "e08": dict(prop="C08",
     change="save/restore of the rule-local `node_kind` around an abandoned alternative is dropped when the rule also has conditional elision (src/backend/rust.rs, Regex::OrderedChoice: the four ifs merged into one match whose first arm shadows the combined case)",
     needs="ordered choice + a rename before a failure point in a non-last alternative + conditional elision in the same rule: the node is closed and announced under the name of the alternative that was not taken",
